@@ -99,8 +99,12 @@ def probe_keys(rnd, model, universe=None, extra=4):
     out = set(model)
     out.add(b"")
     for k in model:
-        for i in range(len(k)):
-            out.add(k[:i])
+        if len(k) <= 5:
+            for i in range(len(k)):
+                out.add(k[:i])
+        else:
+            for i in rnd.sample(range(len(k)), 4):
+                out.add(k[:i])
         out.add(k + bytes([rnd.choice(ALPHA_ADV)]))
         out.add(k + bytes([rnd.randrange(256), rnd.randrange(256)]))
         if k:
